@@ -3,8 +3,8 @@ from propcfg.common import *
 CFG = {
     "disabled": False,
     "props": "Props/C02.v",
-    "corr": ["Corr/NodeCorr.v", "Corr/StackCorr.v", "Corr/NetCorr.v"],
-    "engines": [("stack", []), ("node", []), ("net", [])],
+    "corr": ["Corr/NodeCorr.v", "Corr/StackCorr.v", "Corr/NetCorr.v", "Corr/SyncCorr.v"],
+    "engines": [("stack", []), ("node", []), ("net", []), ("sync", [])],
     "axioms": [],
     "trusted": COMMON_TB + [
         "the base store under the wrapper stack is taken at the level of the C18 specification (one ascending map with untrimmed-bolt / trimmed-bolt / ring semantics); C18 ties that specification to the real back-ends",
